@@ -8,12 +8,15 @@ import (
 	"encoding/json"
 	"fmt"
 	"io/fs"
+	"math/rand"
 	"net/url"
 	"os"
 	"path/filepath"
+	"runtime"
 	"sort"
 	"strconv"
 	"strings"
+	"sync"
 	"sync/atomic"
 
 	"github.com/apparentlymart/go-versions/versions"
@@ -150,6 +153,7 @@ type bObs struct {
 	ManifestSame bool            `json:"manifest_same"` // identical bytes over repeated identical builds
 	CanonSame    bool            `json:"canon_same"`    // identical to the build with the adds in canonical order
 	DirsOK       bool            `json:"dirs_ok"`       // same content <=> same directory
+	ConcSame     bool            `json:"conc_same"`     // concurrent Add calls give the same bundle as sequential ones
 	Gamma        int64           `json:"gamma"`
 	Manifest     string          `json:"manifest_sha"`
 	Panic        string          `json:"panic"`
@@ -242,11 +246,19 @@ type bEnv struct {
 	versQ   map[string][]string
 	srcQ    map[string][]string
 	checkEO bool
+	yield   bool
+	mu      sync.Mutex
 }
 
 func (e *bEnv) ev(xs ...interface{})   { e.obs.Events = append(e.obs.Events, xs) }
 func (e *bEnv) call(xs ...interface{}) { e.obs.Calls = append(e.obs.Calls, xs) }
 func (e *bEnv) boundary() {
+	if e.yield {
+		// free-running concurrent builds: shake the Go scheduler at every callback
+		for i := 0; i < rand.Intn(4); i++ {
+			runtime.Gosched()
+		}
+	}
 	// crash point: the directory under construction must not open as a bundle
 	if _, err := sourcebundle.OpenDir(e.dir); err == nil {
 		e.obs.EarlyOpen++
@@ -565,6 +577,49 @@ func (e *bEnv) build(adds []bAdd, wantClose bool) *sourcebundle.Bundle {
 	return bundle
 }
 
+// buildConcurrent issues every Add from its own goroutine on one builder.
+func (e *bEnv) buildConcurrent(adds []bAdd) *sourcebundle.Bundle {
+	b, err := sourcebundle.NewBuilder(e.dir, e, e)
+	if err != nil {
+		return nil
+	}
+	ctx := context.Background()
+	var wg sync.WaitGroup
+	var failed int32
+	for _, a := range adds {
+		wg.Add(1)
+		go func(a bArt) {
+			defer wg.Done()
+			defer func() {
+				if r := recover(); r != nil {
+					atomic.StoreInt32(&failed, 1)
+				}
+			}()
+			for i := 0; i < rand.Intn(3); i++ {
+				runtime.Gosched()
+			}
+			var diags sourcebundle.Diagnostics
+			if a.Src.K == "rem" {
+				diags = b.AddRemoteSource(ctx, e.g.remote(a.Src), bFinder{e, a.F})
+			} else {
+				diags = b.AddRegistrySource(ctx, e.g.registry(a.Src), e.g.vset(a.Src.Allowed), bFinder{e, a.F})
+			}
+			if diags.HasErrors() {
+				atomic.StoreInt32(&failed, 1)
+			}
+		}(a.Add)
+	}
+	wg.Wait()
+	if failed != 0 {
+		return nil
+	}
+	bundle, err := b.Close()
+	if err != nil {
+		return nil
+	}
+	return bundle
+}
+
 func normResults(rs []bResult) string {
 	// the model logs one result per add that ran to its end; "add" payloads are not compared
 	var parts []string
@@ -854,7 +909,7 @@ func builderMain() int {
 			if nd != obs.diagRet {
 				obs.DiagsOK = false
 			}
-			obs.ManifestSame, obs.CanonSame = true, true
+			obs.ManifestSame, obs.CanonSame, obs.ConcSame = true, true, true
 			if bundle != nil {
 				e.inspect(bundle)
 				sha, _ := manifestOf(e.dir)
@@ -878,6 +933,18 @@ func builderMain() int {
 				}
 				cs, _ := bundle.ChecksumV1()
 				// identical builds, and the canonical order of the same adds, must give the same bundle
+				if *flagMode == "conc" && len(c.Adds) >= 2 {
+					for r := 0; r < repeats; r++ {
+						e3 := newEnv(&c, g, filepath.Join(dir, fmt.Sprintf("c%d", r)))
+						os.Mkdir(e3.dir, 0755)
+						e3.yield = true
+						b3 := e3.buildConcurrent(c.Adds)
+						sha3, _ := manifestOf(e3.dir)
+						if b3 == nil || sha3 != sha || len(e3.obs.Unscripted) != 0 {
+							obs.ConcSame = false
+						}
+					}
+				}
 				for r := 1; r <= repeats; r++ {
 					adds := c.Adds
 					if r == repeats {
@@ -908,7 +975,7 @@ func builderMain() int {
 		agree := obs.Panic == "" && evEq(c.Events, obs.Events) && evEq(c.Calls, obs.Calls) &&
 			normResults(c.Results) == normResultsObs(c.Adds, obs.Results) &&
 			obs.BundleOK == (c.Closed && !c.Poisoned) && len(obs.LookupBad) == 0 && len(obs.Unscripted) == 0 &&
-			obs.EarlyOpen == 0 && obs.TmpLeft == 0 && obs.RefusedAfter && obs.ManifestSame && obs.CanonSame && obs.DiagsOK &&
+			obs.EarlyOpen == 0 && obs.TmpLeft == 0 && obs.RefusedAfter && obs.ManifestSame && obs.CanonSame && obs.ConcSame && obs.DiagsOK &&
 			len(obs.ReopenDiff) == 0 && len(obs.ArchiveDiff) == 0
 		if agree && obs.BundleOK {
 			pp, _ := json.Marshal(c.Pkgs)
